@@ -155,6 +155,11 @@ type FuncVC struct {
 	topBlock *ssa.BasicBlock // current block of the outermost frame (the function under verification)
 	reachTo  map[*ssa.BasicBlock]map[*ssa.BasicBlock]bool
 	reachMu  sync.Mutex
+	prepared   bool
+	fullScript string
+	preRes     map[int]string // first-pass answers obtained in a batch
+	preOut     string
+	preSecs    float64
 	groups   map[int][]int // leader obligation index -> members checked jointly in the first pass
 	groupMu  sync.Mutex
 	lets     map[string]Term // entry-state definitions of the contract under verification
@@ -485,6 +490,28 @@ func (vc *FuncVC) elemInv(s *State, t types.Type, v Term) (Term, string) {
 }
 
 func (vc *FuncVC) loadAddr(s *State, a *Addr) Term {
+	t := vc.loadAddr1(s, a)
+	// a slice or pointer read from the heap (a field, a cell, an array element) refers to something that
+	// has been allocated: the heap holds no dangling references. Needed so that a later allocation cannot
+	// be taken for the array or object it refers to.
+	if vc.useQuantSlices && !vc.dry && (a.kind == "heapField" || a.kind == "arr" || a.kind == "cell") && a.elem != nil && len(t.S) < 4000 {
+		al := vc.get(s, "alloc", "(Array Int Bool)")
+		switch a.elem.Underlying().(type) {
+		case *types.Slice:
+			if t.Sort == "Slice" {
+				vc.assume(s.pc, T("Bool", fmt.Sprintf("(or (= (s!arr %s) 0) (select %s (s!arr %s)))", t.S, al.S, t.S)))
+				vc.assume(s.pc, T("Bool", fmt.Sprintf("(and (>= (s!len %s) 0) (>= (s!off %s) 0) (>= (s!cap %s) (s!len %s)) (=> (= (s!arr %s) 0) (= (s!cap %s) 0)))", t.S, t.S, t.S, t.S, t.S, t.S)))
+			}
+		case *types.Pointer:
+			if t.Sort == "Int" {
+				vc.assume(s.pc, T("Bool", fmt.Sprintf("(or (= %s 0) (select %s %s))", t.S, al.S, t.S)))
+			}
+		}
+	}
+	return t
+}
+
+func (vc *FuncVC) loadAddr1(s *State, a *Addr) Term {
 	if a.kind == "arr" && len(a.path) == 0 {
 		t := vc.loadAddr0(s, a)
 		if f, src := vc.elemInv(s, a.typ, t); f.S != "true" {
